@@ -530,7 +530,7 @@ class Structure(list):
 
         def _resolveindex(aid):
             aid1 = aid
-            if type(aid) is str:
+            if isinstance(aid, str):
                 aid1 = labeltoindex.get(aid, None)
                 if aid1 is None:
                     raise IndexError("Invalid atom label %r." % aid)
